@@ -44,6 +44,11 @@ const SQRT_M_XI_CUBED: Fq = Fq(FqRepr([
     0x73a2af9892a2ffu64,
 ]));
 
+#[cfg(feature = "verif")]
+pub(super) fn verif_consts() -> (Fq, Fq, Fq) {
+    (ELLP_A, ELLP_B, XI)
+}
+
 impl OSSWUMap for G1 {
     fn osswu_map(u: &Fq) -> G1 {
         // compute x0 and g(x0)
